@@ -34,6 +34,9 @@ class PipeSuite:
     def gens(self, tier, sspec):
         raise NotImplementedError
 
+    def cmd_prefix(self):
+        return [self.name]
+
     def corpus_files(self, sspec=None):
         fs = sorted(glob.glob(os.path.join(C.VERIF, "corpus", self.name + "-*.txt")))
         # witnesses of a known finding are replayed only by the checks of the properties it is listed for
@@ -72,12 +75,12 @@ class PipeSuite:
             procs = []
             jobs = []
             for cf in self.corpus_files(sspec):
-                jobs.append(("corpus:" + os.path.basename(cf), [self.harness(), self.name, "--cases", cf], {}))
+                jobs.append(("corpus:" + os.path.basename(cf), [self.harness()] + self.cmd_prefix() + ["--cases", cf], {}))
             for (label, hargs, opts) in self.gens(tier, seed, sspec):
                 nshard = opts.get("shards", C.NPROC)
                 for i in range(nshard):
                     h = self.harness(opts.get("release", False), opts.get("parallel", True))
-                    jobs.append((label, [h, self.name] + hargs + ["--shard", "%d/%d" % (i, nshard)], opts))
+                    jobs.append((label, [h] + self.cmd_prefix() + hargs + ["--shard", "%d/%d" % (i, nshard)], opts))
                 res.stats["generators"].append(label)
             # run at most NPROC pipelines at a time
             pending = list(enumerate(jobs))
@@ -140,7 +143,7 @@ class PipeSuite:
             path = f.name
         try:
             h = self.harness(opts.get("release", False), opts.get("parallel", True))
-            sh = _q(h) + " " + self.name + " --cases " + _q(path) + " | " + _q(C.DRIVER) + " " + self.name + "-check"
+            sh = " ".join(_q(x) for x in [h] + self.cmd_prefix()) + " --cases " + _q(path) + " | " + _q(C.DRIVER) + " " + self.name + "-check"
             p = subprocess.run(["bash", "-o", "pipefail", "-c", sh], env=C.ENV, stdout=subprocess.PIPE, stderr=subprocess.PIPE,
                                text=True, timeout=600)
             if p.returncode != 0:
@@ -157,7 +160,7 @@ class PipeSuite:
             f.write(case.split("\t")[0] + "\n")
             path = f.name
         try:
-            p = subprocess.run([self.harness(), self.name, "--cases", path], env=C.ENV, stdout=subprocess.PIPE,
+            p = subprocess.run([self.harness()] + self.cmd_prefix() + ["--cases", path], env=C.ENV, stdout=subprocess.PIPE,
                                stderr=subprocess.PIPE, text=True, timeout=300)
             line = p.stdout.strip().split("\n")[0] if p.stdout.strip() else ""
             return line.partition("\t")[2]
@@ -396,7 +399,31 @@ class WorldSuite(PipeSuite):
         return head + " :: " + " ; ".join(ops)
 
 
-SUITES = {"plan": PlanSuite(), "exec": ExecSuite(), "world": WorldSuite()}
+class SysdataSuite(PipeSuite):
+    """S4: the generated crate enumerates its own case table (every generated type expression under
+    several presence masks); nothing random except the choice of the extra masks"""
+    name = "sysdata"
+
+    def harness(self, release=False, parallel=True):
+        return C.SD_BIN
+
+    def cmd_prefix(self):
+        return []
+
+    def gens(self, tier, seed, sspec):
+        s = str(seed)
+        if tier == "thorough":
+            return [("all generated type expressions x 7 presence masks", ["--seed", s], {}),
+                    ("all generated type expressions, other masks", ["--seed", str(seed + 1)], {}),
+                    ("all generated type expressions, other masks(2)", ["--seed", str(seed + 2)], {})]
+        return [("all generated type expressions x 7 presence masks", ["--seed", s], {})]
+
+    def run(self, tier, seed, sspec, focus=None):
+        # the sysdata binary takes no suite name argument
+        return super().run(tier, seed, sspec, focus)
+
+
+SUITES = {"plan": PlanSuite(), "exec": ExecSuite(), "world": WorldSuite(), "sysdata": SysdataSuite()}
 
 
 # ----------------------------------------------------------------------------------------
